@@ -194,6 +194,35 @@ def impl_meta(payload):
     return res
 
 
+def impl_large(payload):
+    """N_mode on a mesh large enough for one (k, mu) bin to hold more than 2^24 modes (the limit of exact integers in float32):
+    the counts are the lattice mode counts for every thread count, and do not depend on the particles."""
+    import warnings
+    import numpy as np
+    warnings.simplefilter('ignore')
+    from abacusnbody.analysis.power_spectrum import calc_power
+    out = []
+    for c in payload['cases']:
+        n = c['nmesh']
+        L = float(n)
+        kf = 2 * np.pi / L
+        edges = np.array(c['edges_kf']) * kf
+        # exact lattice count with integer arithmetic: |k|^2 in units of kf^2 against squared edges (edges are chosen off the lattice)
+        f = np.fft.fftfreq(n, 1.0 / n).astype(np.int64)
+        k2 = (f[:, None, None] ** 2 + f[None, :, None] ** 2 + f[None, None, :] ** 2).ravel()
+        e2 = np.array(c['edges_kf'], dtype=np.float64) ** 2
+        want = [int(((k2 > e2[i]) & (k2 <= e2[i + 1])).sum()) for i in range(len(e2) - 1)]
+        del k2
+        rs = np.random.RandomState(c['seed'])
+        rec = {'want': want, 'runs': []}
+        for nthread in c['threads']:
+            pos = (rs.randint(0, n * 4, size=(64, 3)) / 4.0).astype(np.float32)
+            t = calc_power(pos, L, kbins=edges, mubins=1, nmesh=n, paste='CIC', compensated=False, interlaced=False, nthread=nthread)
+            rec['runs'].append({'nthread': nthread, 'N_mode': [int(x) for x in np.asarray(t['N_mode']).ravel()]})
+        out.append(rec)
+    return out
+
+
 def impl_hyps(payload):
     """The hypotheses of the abstract model, sampled on the implementation."""
     import warnings
@@ -365,6 +394,26 @@ def explore(ctx):
                                                                     f'{RTOL} of the column maximum)',
                     'predicate': 'calc_power(T(particles)) == calc_power(particles) for T in {permutation, whole-cell translation '
                                  'with wrap, pos2=pos, thread count}; N_mode / shape / k, mu columns independent of the particles'}
+    # N_mode on a mesh with more than 2^24 modes in one bin (the thorough tier adds an odd mesh)
+    lcases = [{'nmesh': 272, 'edges_kf': [0.5, 240.3], 'threads': [1, 2], 'seed': ctx.rng.randrange(1 << 30)}]
+    if not ctx.quick():
+        lcases.append({'nmesh': 321, 'edges_kf': [0.5, 161.2], 'threads': [1, 4], 'seed': ctx.rng.randrange(1 << 30)})
+    try:
+        lres = ctx.run_impl('harness.c13', 'impl_large', {'cases': lcases})
+    except Exception as e:  # noqa: BLE001
+        lres = []
+        large_error = str(e)[:500]
+    else:
+        large_error = None
+    for c, r in zip(lcases, lres):
+        for run in r['runs']:
+            evaluations += 1
+            if run['N_mode'] != r['want'] and 'N_mode:large-mesh' not in counterexamples:
+                counterexamples['N_mode:large-mesh'] = {
+                    'key': 'N_mode:large-mesh', 'what': f"N_mode on a {c['nmesh']}^3 mesh with nthread={run['nthread']} is not the lattice mode "
+                    'count of the bin (a bin holds more than 2^24 modes)', 'input': dict(c, large=True, threads=[run['nthread']]),
+                    'impl_result': run, 'expected': r['want'],
+                    'predicate': 'N_mode is the number of Fourier modes of the mesh in the bin: a property of the mesh and the binning only'}
     # hypotheses of the abstract model
     hyp_bad = []
     for r in hyps['paint_roll']:
@@ -397,7 +446,8 @@ def explore(ctx):
                 'rfftn shift-theorem samples; non-trivial = N >= 4 and some non-zero power, distinct by (mesh, config, binning, poles, N)',
         'samples': samples,
         'traces_validated_against_impl': len(hyps['paint_roll']) + len(hyps['fft_shift']) + len(hyps.get('hermitian', [])),
-        'exhaustive': False, 'input_distribution': dist, 'mismatches': [],
+        'exhaustive': False, 'input_distribution': dist,
+        'mismatches': ([{'part': 'large-mesh N_mode', 'error': large_error}] if large_error else []),
         'counterexamples': sorted(counterexamples.values(), key=lambda v: v['key']),
         'float_residual': {'rtol_of_column_max': RTOL, 'worst_observed': worst,
                            'fft_shift_worst': max([r['rel_err'] for r in hyps['fft_shift']] + [0.0])},
@@ -412,6 +462,9 @@ def search(ctx, broken):
 
 def replay(ctx, rec):
     c = rec['input']
+    if c.get('large'):
+        r = ctx.run_impl('harness.c13', 'impl_large', {'cases': [c]})[0]
+        return any(run['N_mode'] != r['want'] for run in r['runs']), {'input': c, 'impl_result': r}
     if 'binning' not in c:      # a hypothesis sample
         h = ctx.run_impl('harness.c13', 'impl_hyps', {'cases': [c.get('case', c)]})
         bad = [r for r in h['paint_roll'] if not r['ok']] + [r for r in h['fft_shift'] if r['rel_err'] > 1e-5]
